@@ -118,6 +118,14 @@ let handle kind a =
       (match write_header (dec_header a) with Some t -> Some (hex_of_bytes t) | None -> Some "Err")
   | "ph" ->
       (match read_header (bytes_of_hex a.(0)) with Some h -> Some (enc_header h) | None -> Some "Err")
+  | "bwh" ->
+      (match write_bam_header (dec_header a) with Some t -> Some (hex_of_bytes t) | None -> Some "Err")
+  | "bph" ->
+      (match read_bam_header (bytes_of_hex a.(0)) with
+       | Ok (h, rest) -> Some (enc_header h ^ " " ^ string_of_int (List.length rest))
+       | Err InvalidInput -> Some "Err:InvalidInput"
+       | Err InvalidData -> Some "Err:InvalidData"
+       | Err UnexpectedEof -> Some "Err:UnexpectedEof")
   | "wr" ->
       let refs = refs_of a.(0) in
       let ft = table a.(1) and dt = table a.(2) in
